@@ -31,7 +31,7 @@ var commitKinds = []string{
 }
 
 var forgeKinds = []string{
-	"forge-nonvalidators", "forge-exact23", "forge-exact23-rest-genuine", "forge-otherset", "forge-oldmajority",
+	"forge-nonvalidators", "forge-exact23", "forge-exact23-rest-genuine", "forge-otherset", "forge-oldmajority", "forge-one-vote-every-slot",
 }
 
 var statusKinds = []string{"status-overclaim"}
@@ -327,6 +327,29 @@ func makePlan(c *chain, kind string, h int64) *plan {
 				}
 			}
 			next.LastCommit = cm
+		case "forge-one-vote-every-slot":
+			// ONE validator signs once; its precommit (its own address and index inside) is copied into every slot.
+			// The signer is the strongest validator that alone has at most 1/3 of the power.
+			j := -1
+			for i := 0; i < vs.Size(); i++ {
+				_, v := vs.GetByIndex(i)
+				if 3*v.VotingPower <= vs.TotalVotingPower() {
+					if _, b := vs.GetByIndex(max0(j)); j < 0 || v.VotingPower > b.VotingPower {
+						j = i
+					}
+				}
+			}
+			if j < 0 {
+				return nil
+			}
+			cm := commitBy(vs, h, id, func(i int) (crypto.PrivKeyEd25519, bool) { return realKey(vs, i), i == j })
+			for i := range cm.Precommits {
+				if i != j {
+					c0 := *cm.Precommits[j]
+					cm.Precommits[i] = &c0
+				}
+			}
+			next.LastCommit = cm
 		case "forge-otherset":
 			// signed by more than 2/3 of a neighbouring height's validator set, in that set's layout
 			var other *types.ValidatorSet
@@ -364,4 +387,11 @@ func makePlan(c *chain, kind string, h int64) *plan {
 		return p
 	}
 	return nil
+}
+
+func max0(i int) int {
+	if i < 0 {
+		return 0
+	}
+	return i
 }
